@@ -127,7 +127,9 @@ VARIABLES tb,       \* the table set under test (track 1)
 vars == <<tb, place, k, out>>
 
 TheMovie ==
-  LET trks == IF place = "inter" THEN <<Track("avc", <<3, 232>>, tb), Other>> ELSE <<Track("avc", <<3, 232>>, tb)>>
+  \* (a sync table is legal on a track of any kind: with it the track under test is an audio track in two placements)
+  LET kd == IF tb.stss.some /\ place \in {"rev", "eof"} THEN "aac" ELSE "avc"
+      trks == IF place = "inter" THEN <<Track("avc", <<3, 232>>, tb), Other>> ELSE <<Track(kd, <<3, 232>>, tb)>>
       ord  == CASE place \in {"asc", "eof", "large", "pad"} -> AscOrder(trks) [] place = "rev" -> Rev(AscOrder(trks))
                 [] place = "inter" -> InterOrder(trks)
   IN [mts |-> <<3, 232>>, tracks |-> trks, order |-> ord, extra |-> <<>>]
